@@ -24,9 +24,9 @@ ASSUME UniverseSane
 \* the families of structured programs: sizes, corner elements, unique ids, the nesting bound
 FamIds(f) == {FamCase(f, i).id : i \in 1..FamSize(f)}
 FamiliesSane ==
-    /\ Families = <<"nest", "nestraw", "nestsolo", "place", "cyc", "selfty", "text", "entry">>
+    /\ Families = <<"nest", "nestraw", "nestsolo", "place", "cyc", "selfty", "text", "entry", "lit", "hist">>
     /\ NestK = 22 /\ FamSize("nest") = 22 * 22 * 16 /\ FamSize("nestraw") = 4 * 4 * 16 /\ FamSize("nestsolo") = 10 * 16 + 8
-    /\ FamSize("place") = 5 * 13 * 4 * 2 + 14 * 8 /\ FamSize("cyc") = 512 /\ FamSize("selfty") = 11 * 22 * 2
+    /\ FamSize("place") = 5 * 13 * 4 * 2 + 14 * 8 /\ FamSize("cyc") = 768 /\ FamSize("selfty") = 11 * 22 * 2
     /\ FamSize("text") = 4 * 4 * 3 * 3 * 7 * 3 * 3 /\ FamSize("entry") = 8 * 5 * 5 * 6 + 8 * 6
     /\ TextCase(1).id = "text:string:n1:b2:first:l0:none:none" /\ TextCase(TextSize).id = "text:errchar:n4:b4:last:l6:ident:here"
     /\ TextCase(2269 + 567 + 189 + 3).files[1].text =          \* comment, 2 lines, 3-byte characters on the first line, op, none
@@ -49,4 +49,36 @@ FamiliesSane ==
     /\ \A f \in {"nestsolo", "place", "cyc", "selfty", "text", "entry"} : \A i \in 1..FamSize(f) :
           LET c == FamCase(f, i) IN c.files[1].name = "main.sy" /\ \A q \in 1..Len(c.files) : Len(c.files[q].text) > 0
 ASSUME FamiliesSane
+
+\* the round-3 families: literal arithmetic towards the numeric limits, histories
+LitHistSane ==
+    /\ LitNE = 144 + 64 + 18 + 9 + 72 + 12 * 12 * 2 + 12 /\ FamSize("lit") = LitNE * 12 + 432 * 3 + 10
+    /\ LitCase(1).id = "lit:bin:0_add_0:const" /\ LitCase(LitSize).id = "lit:index:340282366920938463463374607431768211456:tindex"
+    \* seven small literals whose product is beyond 2^63 (nanoseconds in a million days), flat, as a constant
+    /\ LET i == (144 + 64 + 18 + 9 + 72 + (2 * 12 + 5) * 2) * 12 + 1 IN
+          /\ LitCase(i).id = "lit:chain:units:n7:left:const"
+          /\ LitCase(i).files[1].text = LitPrelude \o FamLines(<<"x :: 1000000 * 24 * 60 * 60 * 1000 * 1000 * 1000",
+                                                                 "start :: fn do", "q := 0", "w := x", "end">>)
+    /\ LitChainR(<<"0", "4611686018427387904">>, "-", 1, 3) = "0 - (4611686018427387904 - (0))"
+    /\ Cardinality(FamIds("lit")) = FamSize("lit")
+    \* every literal of the in-range pools has at most 19 digits (it is a token); every one of LitLex has more or is 2^63
+    /\ \A q \in 1..Len(LitI6) : Len(LitI6[q]) <= 19
+    /\ \A q \in 1..Len(LitLex) : Len(LitLex[q]) >= 19
+    \* right-nested chains stay inside the nesting bound of the property, whatever the position adds
+    /\ LitLens[Len(LitLens)] + 2 <= NestMaxLevels
+    /\ HistNP = 5 * 9 + 3 * 3 /\ HistFirstN = 5 * 4 + 9 /\ FamSize("hist") = 29 * 54 + 8 * 8 * 8
+    /\ Cardinality({HistFirstAt(f) : f \in 0..(HistFirstN - 1)}) = HistFirstN /\ \A f \in 0..(HistFirstN - 1) : HistFirstAt(f) < HistNP
+    /\ Cardinality({HistProgIdAt(p) : p \in 0..(HistNP - 1)}) = HistNP
+    /\ \A p \in 0..(HistNP - 1) : HistProgAt(p).id = HistProgIdAt(p) /\ Len(HistProgAt(p).files) \in {1, 3, 10, 12}
+                                   /\ HistProgAt(p).files[1].name = "main.sy"
+    /\ \A q \in 1..Len(HistTriple) : HistTriple[q] < HistNP
+    /\ HistCase(1).id = "hist:one.ok.std>one.ok.std" /\ HistCase(HistSize).id = "hist:twelve-last.ok.nostd>twelve-last.ok.nostd>twelve-last.ok.nostd"
+    \* a ten-file program with std, then a one-file program with std that defines its own `max`
+    /\ LET c == HistCase(12 * 54 + 4 + 1) IN
+          /\ c.id = "hist:ten-last.ok.std>one.collfn.std" /\ Len(c.steps) = 2 /\ Len(c.steps[1].files) = 10 /\ ~c.steps[2].nostd
+          /\ c.steps[2].files[1].text = FamLines(<<"x :: 1", "max :: fn a: int, b: int -> int do ret a end", "start :: fn do", "w := x", "end">>)
+          /\ c.steps[1].files[10] = FamFile("m09.sy", "x :: 1" \o NL)
+    \* histories are pairs, then triples; a later program smaller by 8 files and more than an earlier one exists in both orders
+    /\ \A i \in {1, HistPairsN, HistPairsN + 1, HistSize} : Len(HistSteps(i)) = IF i <= HistPairsN THEN 2 ELSE 3
+ASSUME LitHistSane
 =============================================================================
